@@ -65,7 +65,7 @@ def views(proto, cfg, sel, waptop):
             elif re.match(r"(/|)URL:", s):
                 out.append((name, ("url", re.match(r"(/|)URL:(.*)$", s, re.S).group(2))))
             elif host == SRV[0] and port == SRV[1]:
-                out.append((name, ("local", s)))
+                out.append((name, ("local", s or "/")))       # (the empty selector is the root)
             else:
                 out.append((name, ("gopher", host, port, t + s)))
         return out, r
@@ -129,7 +129,13 @@ def site(tree):
     tree.write("mixed/doc.txt", b"d\n")
     # link blocks to other servers: with a type, without one (a document, as in the Gopher menu), host only, port only
     tree.write("linked/.Links", b"Name=No type given\nPath=/arch\nHost=other.example\nPort=70\n\nName=Typed\nType=1\nPath=/pub\nHost=other.example\nPort=7070\n\n"
-                                b"Name=Untyped, host only\nPath=/x y\nHost=third.example\n")
+                                b"Name=Untyped, host only\nPath=/x y\nHost=third.example\n\n"
+                                # this server's root, linked from a sub-directory
+                                b"Name=Home\nType=1\nPath=/\n\n"
+                                # searches that live elsewhere: another server's, and one given as a URL
+                                b"Name=Search gopherspace\nType=7\nPath=/v2/vs\nHost=gopher.floodgap.example\nPort=70\n\n"
+                                b"Name=Search the web\nType=7\nPath=URL:http://search.example/find\n\n"
+                                b"Name=Local search\nType=7\nPath=/linked/file.txt\n")
     tree.write("linked/file.txt", b"f\n")
     tree.write("mixed/doc.txt.abstract", b"An abstract\nwith two lines\n")
     return ["/", "/docs", "/names", "/mixed", "/linked", "/map", "/pics", "/mail", "/mail/box.mbox", "/menu.gophermap", "/link-to-docs",
